@@ -94,7 +94,7 @@ EXTRA_CHECKS["C18"] = (TV,
     trust_sh + "; the Batch counterpart (_ach through cmd /V:ON) is not claimed (no cmd.exe)", tech_sh)
 EXTRA_CHECKS["C15"] = (TV,
     "the real pipeline compiles `import \"strings\"; print(strings.F(args))` for each of the 19 library functions; the "
-    "emitted script runs under ShSem with every string argument as symbolic bytes over {a,b,' '} (TrimSpace: escape letters, tab, blank; lengths 0..maxLen by "
+    "emitted script runs under ShSem with every string argument as symbolic bytes over {a,b,' '} (TrimSpace: escape letters, tab, blank; lengths 0..maxLen (2..4 quick, 3..5 thorough) by "
     "case split, counts -2..4); z3 decides per path that for every argument tuple the output equals what Go's strings "
     "package returns (reference table computed natively)",
     "trusted: ShSem (calibrated against /bin/bash), Go's strings package as reference; arguments travel through files so "
